@@ -611,6 +611,18 @@ def zc_episode(g, kind, steps):
         ep.define(v, ks, [m] if kind == "dense0" else [])
         ep.views.add(v)
         views.append(v)
+    if views and r.random() < 0.5:
+        # RunOptimize on the fresh view (content-neutral; chunks that keep their kind still borrow the caller's bytes), then edits
+        # in every chunk and a detach: the buffer stays what it was, and after the detach nothing refers to it
+        v = r.choice(views)
+        g.emit("opt %s" % v)
+        ep.check()
+        for k in r.sample(ks, min(len(ks), 3)):
+            g.emit("%s %s %d" % (r.choice(["add", "rem", "cadd", "crem"]), v, k * CH + g.lowval()))
+            g.emit("flip %s %d %d" % (v, k * CH + 1000, k * CH + 1003))
+            g.emit("zsame %s" % m)
+        g.count("zc:opt-first")
+        ep.check()
     if views and r.random() < 0.6:
         # straight away, while every chunk of the view still borrows the caller's bytes: a batch whose first value is present
         v = r.choice(views)
